@@ -3,6 +3,7 @@
 package main
 
 import (
+	"bytes"
 	"encoding/json"
 	"flag"
 	"os"
@@ -28,6 +29,19 @@ type contraRec struct {
 	A12  bool      `json:"a12"` // API.AreHeadersContradicting on the same pair (distinct IDs)
 	A21  bool      `json:"a21"`
 	Self bool      `json:"self"` // API.AreHeadersContradicting(h1, h1): must be false
+}
+
+// lbrRec: does a REJECTED block change how the next block is classified?  The tip T (slot s-1) was received within its slot;
+// a competing block T2 (same height and parent, other generator, current slot s, received in its slot) must then be discarded
+// (no tie break: the tip was on time).  Attack run: a garbage successor of T (bad signature) is offered first.
+type lbrRec struct {
+	K           string `json:"k"`
+	N           int    `json:"n"`
+	Control     string `json:"control"` // tip after offering T2 alone: "T" | "T2" | other
+	Attack      string `json:"attack"`  // tip after offering the garbage block G and then T2
+	GRejected   bool   `json:"g_rejected"`
+	LbrMovedByG bool   `json:"lbr_moved_by_g"` // lastBlockReceived differs after the rejected G
+	Skipped     string `json:"skipped,omitempty"`
 }
 
 // prioRec: API.HeaderHasPriority (K "prio") or Executer.Synced (K "synced") against (height, maxHeightPrevoted)
@@ -262,6 +276,10 @@ func main() {
 		hm, hh := r.U32(), r.U32()
 		o.Put(prio(api, r.Intn(5) != 0, hm, hh, pick(hh), pick(hm)))
 	}
+	// (f) a rejected block must not change the classification of the next one
+	for _, rec := range lbrCases(r) {
+		o.Put(rec)
+	}
 	// (e) Executer.Synced on a real node: the same order against (node's maxHeightPrevoted, tip height)
 	for _, rec := range syncedCases(r) {
 		o.Put(rec)
@@ -360,6 +378,92 @@ func syncedCases(r *hx.Rng) []prioRec {
 			}
 		}
 		grid(true)
+	}
+	return out
+}
+
+func flipSig(b []byte) []byte {
+	c := append([]byte{}, b...)
+	c[0] ^= 0x55
+	return c
+}
+
+// lbrRun builds a fresh node with tip T in slot now-1 (received on time) and a competing T2 for the current slot; with
+// withGarbage it first offers a successor of T whose signature is broken.  Returns the tip name and what happened to G.
+func lbrRun(nvals int, withGarbage bool) (tip string, gRejected, moved bool, skipped string) {
+	n, err := exh.New(exh.Options{N: nvals})
+	if err != nil {
+		panic(err)
+	}
+	for i := 0; i < 3; i++ {
+		if res := n.Process(n.NextValid(exh.Build{})); !res.OK() {
+			panic("lbr: valid block rejected")
+		}
+	}
+	nowSlot := n.Slot(uint32(time.Now().Unix()))
+	prev := n.Tip()
+	prevSlot := n.Slot(prev.Header.Timestamp)
+	if nowSlot-prevSlot < 4 {
+		return "", false, false, "clock too close to the chain"
+	}
+	T := n.NextValid(exh.Build{SkipSlots: nowSlot - 2 - prevSlot})
+	if res := n.ProcessValidated(T, false); !res.OK() {
+		panic("lbr: T rejected")
+	}
+	// T2: built against the state without T, for the current slot
+	n.DeleteBlock(n.Tip(), false)
+	T2 := n.NextValid(exh.Build{SkipSlots: nowSlot - 1 - prevSlot})
+	if res := n.ProcessValidated(T, false); !res.OK() {
+		panic("lbr: T not re-accepted")
+	}
+	if bytes.Equal(T2.Header.GeneratorAddress, T.Header.GeneratorAddress) {
+		return "", false, false, "same generator in both slots"
+	}
+	onTime := time.Unix(int64(n.Exec.GetSlotTime(n.Slot(T.Header.Timestamp)))+1, 0)
+	n.Exec.VerifC03SetLastBlockReceived(&onTime)
+	if withGarbage {
+		G := n.NextValid(exh.Build{})
+		G.Header.Signature = flipSig(G.Header.Signature)
+		G.Header.Init()
+		res := n.Process(G)
+		gRejected = !res.OK() && bytes.Equal(n.Tip().Header.ID, T.Header.ID)
+		after := n.Exec.VerifC03LastBlockReceived()
+		moved = after == nil || !after.Equal(onTime)
+	}
+	n.Process(T2)
+	if n.Slot(uint32(time.Now().Unix())) != nowSlot {
+		return "", false, false, "slot changed during the run"
+	}
+	switch {
+	case bytes.Equal(n.Tip().Header.ID, T.Header.ID):
+		tip = "T"
+	case bytes.Equal(n.Tip().Header.ID, T2.Header.ID):
+		tip = "T2"
+	default:
+		tip = "other"
+	}
+	return tip, gRejected, moved, ""
+}
+
+func lbrCases(r *hx.Rng) []lbrRec {
+	out := []lbrRec{}
+	for _, nv := range []int{3, 4, 5} {
+		rec := lbrRec{K: "lbr", N: nv}
+		for try := 0; try < 4; try++ {
+			c, _, _, sk := lbrRun(nv, false)
+			if sk != "" {
+				rec.Skipped = sk
+				continue
+			}
+			a, gr, mv, sk2 := lbrRun(nv, true)
+			if sk2 != "" {
+				rec.Skipped = sk2
+				continue
+			}
+			rec.Control, rec.Attack, rec.GRejected, rec.LbrMovedByG, rec.Skipped = c, a, gr, mv, ""
+			break
+		}
+		out = append(out, rec)
 	}
 	return out
 }
